@@ -322,6 +322,13 @@ def d_candidates(ck, F):
     def CUR(bk): return canon(('idx', ('in', 'cur'), ('c', bk)))
     above_idx = op('Add', op('Mul', ('call', 'satsub', line, ('c', 1)), ('in', 'mbpl')), col)
     n_ok = 0
+    real_ck = ck
+    class _Buf:           # the symbolic comparison first; its complaints are only reported if the numeric one below does not settle the matter
+        def __init__(s): s.v = []
+        def ok(s, *a, **k): real_ck.ok(*a, **k)
+        def violation(s, *a, **k): s.v.append((a, k))
+        def unanalysable(s, *a, **k): s.v.append((('unanalysable',) + a, k))
+    buf = _Buf(); ck = buf
     for k in range(4):
         try:
             r, st = TreeBuilder(F, opaque=lambda n: default_opaque(n) or n.endswith('median_of')).function(MVP + 'predict_candidate', [('in', 'pv'), ('in', 'cur'), ('in', 'mbpl'), ('c', k)])
@@ -349,6 +356,17 @@ def d_candidates(ck, F):
             if ok: n_ok += 1; ck.ok('D', 'index %d, class (first_col=%d, first_line=%d, last_col=%d): candidates as specified' % (k, c0, l0, eol), where_of(b), nontrivial=(c0 + l0 + eol == 0))
             else:
                 ck.violation('D', key, where_of(b), 'candidates are MV1=%s MV2=%s MV3=%s' % (show(mv1)[:120], show(mv2)[:160], show(mv3)[:160]))
+    ck = real_ck
+    if buf.v:
+        # another spelling of the border tests: decide the same table on concrete macroblock positions (every column / line class for 1..4 macroblocks per line)
+        why = _candidates_numeric(F, LEN, ZERO)
+        if why is None:
+            ck.ok('D', 'candidates as specified for every index and every macroblock position of pictures 1..4 macroblocks wide, 4 lines (border tests in another spelling: decided on concrete positions)', where_of(b))
+        else:
+            for a, k_ in buf.v:
+                if a[0] == 'unanalysable': ck.unanalysable(*a[1:], **k_)
+                else: ck.violation(*a, **k_)
+            ck.violation('D', 'D : predict_candidate : concrete positions', where_of(b), why)
     # the closures select block index+2 and block 2 of the neighbouring macroblock
     for cn, want in ((MVP + 'predict_candidate::{closure#0}', 'index + 2'), (MVP + 'predict_candidate::{closure#1}', '2')):
         cb = F.body(cn)
@@ -365,6 +383,41 @@ def d_candidates(ck, F):
     ks = [expr_of(F, sb, t['args'][3]) for bb, t in rr.find_calls(F, sb, 'mvd_pred::predict_candidate')]
     if ks == [('c', 0), ('c', 1), ('c', 2), ('c', 3)]: ck.ok('D', 'the four call sites pass index 0,1,2,3 in decoding order', where_of(sb))
     else: ck.violation('D', 'D : closure : predict_candidate indices', where_of(sb), 'predict_candidate is called with indices %s' % ks)
+
+
+def _candidates_numeric(F, LEN, ZERO):
+    """None if, for every block index and every macroblock position n of pictures m = 1..4 macroblocks wide (4 lines), predict_candidate with
+    len(pv) = n and mb_per_line = m is the median of the three candidates of H.263 6.1.1; else the first difference"""
+    def sub(x, n):
+        if x == LEN: return ('c', n)
+        if isinstance(x, tuple): return tuple(sub(y, n) if isinstance(y, tuple) else y for y in x)
+        return x
+    def op(o, x, y): return ('op', o, x, y)
+    for k in range(4):
+        for m in range(1, 5):
+            try:
+                r, st = TreeBuilder(F, opaque=lambda nm: default_opaque(nm) or nm.endswith('median_of')).function(MVP + 'predict_candidate', [('in', 'pv'), ('in', 'cur'), ('c', m), ('c', k)])
+            except TooComplex as e:
+                return 'index %d, %d macroblocks per line: %s' % (k, m, e)
+            for n in range(0, 4 * m):
+                leaf = canon(sub(r, n))
+                la = leaf[1][0][0] if is_lin(leaf) and len(leaf[1]) == 1 else None
+                if not (la and la[0] == 'call' and la[1].endswith('median_of') and len(la) == 5):
+                    return 'index %d at macroblock %d of a picture %d macroblocks wide: the result is not a median of three candidates (%s)' % (k, n, m, show(leaf)[:160])
+                col, line = n % m, n // m
+                def LEFT(bk): return canon(('idx', ('idx', ('in', 'pv'), ('c', n - 1)), ('c', bk)))
+                def CUR(bk): return canon(('idx', ('in', 'cur'), ('c', bk)))
+                w1 = (ZERO if col == 0 else LEFT(k + 1)) if k in (0, 2) else CUR(k - 1)
+                good = la[2] == w1
+                if k in (2, 3): good = good and la[3] == CUR(0) and la[4] == CUR(1)
+                else:
+                    good = good and (la[3] == w1 if line == 0 else is_above(la[3], canon(('c', (line - 1) * m + col)), w1))
+                    if col == m - 1: good = good and la[4] == ZERO
+                    elif line == 0: good = good and la[4] == w1
+                    else: good = good and is_above(la[4], canon(('c', (line - 1) * m + col + 1)), w1)
+                if not good:
+                    return 'index %d at macroblock %d of a picture %d macroblocks wide: candidates are MV1=%s MV2=%s MV3=%s' % (k, n, m, show(la[2])[:100], show(la[3])[:140], show(la[4])[:140])
+    return None
 
 
 def is_above(mv, idx, fallback):
